@@ -19,7 +19,7 @@ ASSUMPTIONS = ["the executable model is the 40-line dictionary model in this fil
                "floats are compared by their IEEE bit pattern, ints and strings by type and value"]
 FLOORS = {"model:state agrees after step": 2000, "model:save -> load into a fresh object gives the same mapping": 150,
           "model:varied values follow varylist order": 2000}
-NAMES = ["cell_a", "cell_b", "wavelength", "t_x", "o11", "fit-tol", "y-center", "spacegroup", "distance", "chi"]
+NAMES = ["cell_a", "cell_b", "wavelength", "t_x", "o11", "fit-tol", "y-center", "spacegroup", "distance", "chi", "o-1-2", "z-center-px"]
 
 
 def same_value(a, b):
